@@ -1857,7 +1857,7 @@ class V:
             return
         if isinstance(st, (ast.Assign, ast.For)):
             al = self._alias_roots(ast.Assign(targets=st.targets, value=st.value) if isinstance(st, ast.Assign) else ast.For(target=st.target, iter=st.iter, body=[], orelse=[]))
-            for k_ in {x.id for t_ in (st.targets if isinstance(st, ast.Assign) else [st.target]) for x in ast.walk(t_) if isinstance(x, ast.Name)}:
+            for k_ in {x.id for t_ in (st.targets if isinstance(st, ast.Assign) else [st.target]) for x in ast.walk(t_) if isinstance(x, ast.Name) and isinstance(x.ctx, ast.Store)}:
                 self.view_of[k_] = al.get(k_, set())
         if isinstance(st, ast.Assign):
             if isinstance(st.value, ast.Lambda) and len(st.targets) == 1 and isinstance(st.targets[0], ast.Name):
